@@ -542,7 +542,7 @@ def gen_seq(res, rng, impl, depth):
     gaps = rng.choice([0, 0, 0.15])
     s0 = rand_seq_str(rng, mt, L, gaps=gaps, ambig=rng.choice([0, 0.1]))
     off = rng.choice([0, 0, 0, 3, 17])
-    kw = dict(name="s1", moltype=mt, new_type=(impl == "new"))
+    kw = dict(name=rng.choice(["s1", "s1", "seq 1", "chr|1.2", "7"]), moltype=mt, new_type=(impl == "new"))
     if off:
         kw["annotation_offset"] = off
     ok, s = try_op(res, "seq", "make_seq", lambda: make_seq(s0, **kw))
@@ -768,7 +768,7 @@ def gen_coll(res, rng, impl, depth):
 
     mt = rng.choice(["dna", "dna", "rna", "protein", "text"])
     n = rng.randint(1, 4)
-    names = rng.sample(["a", "b", "seq_c", "d1", "E"], n)
+    names = rng.sample(["a", "b", "seq_c", "d1", "E", "sp 1", "x|y.1", "10"], n)
     new_type = impl == "new"
     from_views = impl == "old" and rng.random() < 0.35
     data = {nm: rand_seq_str(rng, mt, rng.randint(1, 16), gaps=rng.choice([0, 0, 0.2])) for nm in names}
@@ -911,7 +911,7 @@ def aln_item(a):
 
 
 def rand_aln_data(rng, mt, n, L):
-    names = rng.sample(["a", "b", "seq_c", "d1", "E"], n)
+    names = rng.sample(["a", "b", "seq_c", "d1", "E", "sp 1", "x|y.1", "10"], n)
     gaps = rng.choice([0.0, 0.15, 0.35])
     data = {}
     for nm in names:
@@ -1201,8 +1201,11 @@ def tree_name_class(t):
         return "unnamed-node"
     if len(set(names)) != len(names):
         return "duplicate-name"
-    if any(not str(n).isalnum() for n in names):
-        return "needs-escaping"
+    for n in names:
+        n = str(n)
+        # the C09 classes: newick metacharacters, quotes, leading / trailing blanks (other white space likewise)
+        if any(ch in n for ch in "()[],:;'\"") or n != n.strip() or any(ch.isspace() and ch != " " for ch in n) or "  " in n:
+            return "needs-escaping"
     return None
 
 
@@ -1236,9 +1239,24 @@ def tree_item(t):
 
 def rand_tree_newick(rng, ntips, lengths):
     tips = [f"t{i}" for i in range(ntips)]
-    if rng.random() < 0.5:
+    style = pick(rng, ["plain", "species", "blank", "species", "blank-internal", "punct"])
+    if style != "plain":
         tips = rng.sample(["Human", "Mouse", "Rat", "Dog", "Cow", "Pig", "Cat", "Fox", "Bat", "Owl"], ntips)
-    nodes = [(t, True) for t in tips]
+    if style in ("blank", "blank-internal"):
+        # names with an internal blank are legal (quoted in newick) and are not one of the C09 name classes
+        pool = ["Pan troglodytes", "Homo sapiens", "Mus musculus", "Bos taurus", "Sus scrofa dom", "Canis l familiaris"]
+        for i, k in enumerate(rng.sample(range(ntips), rng.randint(1, min(ntips, len(pool))))):
+            tips[k] = pool[i]
+    elif style == "punct":
+        pool = ["sp_1", "a.b", "x-y", "g|1", "n=2", "A_b_c"]
+        for i, k in enumerate(rng.sample(range(ntips), rng.randint(1, min(ntips, len(pool))))):
+            tips[k] = pool[i]
+
+    def q(name):
+        return f"'{name}'" if (" " in name or "_" in name) else name
+
+    blank_internal = style == "blank-internal"
+    nodes = [(q(t), True) for t in tips]
     rng.shuffle(nodes)
     cnt = 0
 
@@ -1254,7 +1272,8 @@ def rand_tree_newick(rng, ntips, lengths):
         k = 3 if (rng.random() < 0.2 and len(nodes) > k_root + 1) else 2
         sel = [nodes.pop(rng.randrange(len(nodes))) for _ in range(k)]
         cnt += 1
-        nodes.append(("(" + ",".join(s + ln() for s, _ in sel) + f")n{cnt}", False))
+        iname = f"'clade {cnt}'" if blank_internal and cnt % 2 else f"n{cnt}"
+        nodes.append(("(" + ",".join(s + ln() for s, _ in sel) + f"){iname}", False))
     return "(" + ",".join(s + ln() for s, _ in nodes) + ")root;"
 
 
@@ -1269,7 +1288,15 @@ def gen_tree(res, rng, phylo, depth):
     if phylo:
         ok, t = try_op(res, "tree", "make_tree", lambda: make_tree(nwk))
     else:
-        ok, t = try_op(res, "tree", "make_tree", lambda: DndParser(nwk, constructor=TreeNode))
+
+        def _mk_treenode():
+            tn = DndParser(nwk, constructor=TreeNode)
+            for node in tn.get_edge_vector(include_root=True):  # DndParser keeps the newick quotes in the name
+                if node.name and len(node.name) > 1 and node.name[0] == node.name[-1] == "'":
+                    node.name = node.name[1:-1]
+            return tn
+
+        ok, t = try_op(res, "tree", "make_tree", _mk_treenode)
     if not ok:
         return
     if tree_name_class(t):
@@ -1279,7 +1306,7 @@ def gen_tree(res, rng, phylo, depth):
     for _ in range(depth):
         tips = t.get_tip_names()
         internal = [n.name for n in t.get_edge_vector(include_root=False) if n.children]
-        ops = ["rooted_with_tip", "unrooted", "get_sub_tree", "sorted", "deepcopy", "rename"]
+        ops = ["rooted_with_tip", "unrooted", "get_sub_tree", "sorted", "deepcopy", "rename", "reassign_names"]
         if internal:
             ops += ["rooted_at", "rooted_at"]
         if phylo:
@@ -1307,9 +1334,21 @@ def gen_tree(res, rng, phylo, depth):
             ok, new = try_op(res, "tree", op, lambda: t.sorted())
         elif op == "deepcopy":
             ok, new = try_op(res, "tree", op, lambda: t.deepcopy())
+        elif op == "reassign_names":
+            cur = [n for n in tree_names(t) if n != t.name]
+            k = rng.sample(cur, rng.randint(1, min(3, len(cur))))
+            mapping = {nm: rng.choice(["Gorilla gorilla", "new name", "Felis catus", "renamed_tip", "node x"]) + f" {i}" for i, nm in enumerate(k)}
+            d["mapping"] = mapping
+
+            def _rn(mapping=mapping):
+                c = t.deepcopy()
+                c.reassign_names(mapping)
+                return c
+
+            ok, new = try_op(res, "tree", op, _rn)
         elif op == "rename":
             nm = rng.choice(tree_names(t))
-            newname = "x" + str(rng.randint(100, 999))
+            newname = rng.choice(["x", "x y ", "sp nov "]).strip() + str(rng.randint(100, 999))
             d.update(node=nm, to=newname)
 
             def _ren():
@@ -1409,12 +1448,15 @@ def rand_table(rng, tag=""):
     header = [f"{tag}c{i}" for i in range(ncols)]
     if rng.random() < 0.3:
         header[0] = "id"
+    if rng.random() < 0.25:  # unusual but legal column names
+        for j, nm in zip(range(1, ncols), [f"{tag}col 1", f"{tag}2", f"{tag}a.b", f"{tag}x_y"]):
+            header[j] = nm
     data = {}
     kinds = []
     for j, h in enumerate(header):
-        kind = rng.choice(["int", "float", "str", "bool", "float-nan", "str", "int"])
+        kind = rng.choice(["int", "float", "str", "bool", "float-nan", "str", "int", "str-numeric", "mixed", "int-big"])
         if j == 0:
-            kind = rng.choice(["str-unique", "int-unique"])
+            kind = rng.choice(["str-unique", "int-unique", "float-unique", "str-numeric-unique", "int-unique"])
         kinds.append(kind)
         if kind == "int":
             col = [rng.randint(-5, 50) for _ in range(nrows)]
@@ -1422,6 +1464,16 @@ def rand_table(rng, tag=""):
             col = rng.sample(range(100), nrows)
         elif kind == "str-unique":
             col = [f"r{i}" for i in rng.sample(range(100), nrows)]
+        elif kind == "float-unique":
+            col = [x / 4 for x in rng.sample(range(-20, 80), nrows)]
+        elif kind == "str-numeric-unique":  # strings that look like numbers must stay strings
+            col = [str(i) if i % 2 else f"0{i}" for i in rng.sample(range(100), nrows)]
+        elif kind == "str-numeric":
+            col = [rng.choice(["1", "02", "1e3", "-4.5", "nan", "True", "None"]) for _ in range(nrows)]
+        elif kind == "mixed":
+            col = [rng.choice([1, "a", None, 2.5, "3"]) for _ in range(nrows)]
+        elif kind == "int-big":
+            col = [rng.choice([2**40, -(2**33), 0, 255]) for _ in range(nrows)]
         elif kind == "float":
             col = [rng.choice([0.0, 1.5, 1e-9, 123456.789, -2.25, rng.uniform(-1, 1)]) for _ in range(nrows)]
         elif kind == "float-nan":
@@ -1599,7 +1651,12 @@ def darr_components():
 
 
 def dm_components():
+    def cells(x):
+        names = list(x.names)
+        return {f"{a}|{b}": x[a, b] for a in names for b in names}
+
     return darr_components() + [
+        ("ordered-cells", cells),
         ("dm-names", lambda x: list(x.names)),
         ("dm-to_dict", lambda x: x.to_dict()),
         ("dm-table", lambda x: x.to_table().to_list()),
@@ -1613,7 +1670,18 @@ def gen_darr(res, rng, depth):
     dims = []
     for k in range(nd):
         n = rng.randint(1, 4)
-        dims.append(rng.choice([[f"{'abc'[k]}{i}" for i in range(n)], list("ACGT")[:n], n if rng.random() < 0.15 else [f"k{i}" for i in range(n)]]))
+        dims.append(
+            rng.choice(
+                [
+                    [f"{'abc'[k]}{i}" for i in range(n)],
+                    list("ACGT")[:n],
+                    n if rng.random() < 0.15 else [f"k{i}" for i in range(n)],
+                    [3, 0, 2, 1][:n],  # integer labels that are not positions
+                    ["1", "01", "1.0", "10"][:n],  # look alike, all different
+                    ["a b", "a  b"[:3] + "c", "A B", "b a"][:n],
+                ]
+            )
+        )
     shape = [d if isinstance(d, int) else len(d) for d in dims]
     kind = rng.choice(["int", "float", "float-special", "bool"])
     size = int(np.prod(shape))
@@ -1689,8 +1757,12 @@ def gen_dm(res, rng, depth):
         for j in range(i + 1, n):
             v = rng.choice([0.0, 0.1, 1.5, round(rng.uniform(0, 3), 5), float("nan") if rng.random() < 0.3 else 0.25])
             dists[(names[i], names[j])] = v
-            if rng.random() < 0.7:
+            r = rng.random()
+            if r < 0.5:
                 dists[(names[j], names[i])] = v
+            elif r < 0.8 or getattr(rng, "slot", 1) % 2 == 0:
+                # a distance matrix is a plain names x names array: the two directions may legally differ
+                dists[(names[j], names[i])] = round(v + 0.5, 5) if v == v else 0.25
     kw = {}
     if rng.random() < 0.3:
         kw["invalid"] = rng.choice([None, 9.0])
@@ -1701,9 +1773,19 @@ def gen_dm(res, rng, depth):
     yield item(x), "fresh", {"dists": {keystr(k): v for k, v in dists.items()}, **kw}
     for _ in range(depth):
         cur = list(x.names)
-        op = rng.choice(["take_dists", "take_dists-negate", "drop_invalid", "write-cell", "deepcopy"])
+        op = rng.choice(["take_dists", "take_dists-negate", "drop_invalid", "write-cell", "write-cell-one-direction", "write-cell-one-direction", "deepcopy"])
         d = {"op": op}
-        if op.startswith("take_dists"):
+        if op == "write-cell-one-direction":
+            a, b = rng.sample(cur, 2)
+            val = rng.choice([0.75, 0.0, 2.125, float("nan")])
+            d.update(cell=[a, b], value=val)
+
+            def _wc1(a=a, b=b, val=val):
+                x[a, b] = val
+                return x
+
+            ok, new = try_op(res, "dm", op, _wc1)
+        elif op.startswith("take_dists"):
             if len(cur) < 3:
                 yield None, op, {**d, "skipped": True}
                 continue
@@ -2749,6 +2831,16 @@ def gen_lf(res, rng, model, depth, variant):
             rng, model, ntips=rng.randint(2, 4 if big else 5), ncols=rng.randint(2, 8 if big else 25),
             ambig=rng.choice([0.0, 0.1]), scoped=(variant == "scoped"), bins=bins,
         )  # fmt: skip
+        if getattr(rng, "slot", 0) % 3 == 1:
+            # taxon / node names with an internal blank: legal, and they key the tree's edge attributes, the
+            # alignment rows and the scoped parameter rules of the serialised form
+            ren = {}
+            for node in M.edges(prob["tree"]):
+                ren[node["name"]] = ("sp " if not node["children"] else "node ") + node["name"][1:]
+                node["name"] = ren[node["name"]]
+            prob["aln"] = {ren[k]: v for k, v in prob["aln"].items()}
+            prob["edge_params"] = {par: [[[ren[e] for e in g], v] for g, v in groups] for par, groups in prob["edge_params"].items()}
+            d0["names"] = "internal-blank"
         d0.update(problem=prob)
         ok, lf = try_op(res, "lf", "build", lambda: M.build_lf(prob))
     if not ok:
@@ -2761,7 +2853,7 @@ def gen_lf(res, rng, model, depth, variant):
         tipn = lf.tree.get_tip_names()
         ops = ["set_name", "optimise", "length-constant", "length-init", "mprobs"]
         if pars:
-            ops += ["param-constant", "param-bounds", "param-independent", "param-edges", "param-clade", "param-init"]
+            ops += ["param-constant", "param-bounds", "param-independent", "param-edges", "param-clade", "param-init", "param-constant-and-bounded", "param-constant-and-bounded"]
         if model == "BH":
             ops = ["set_name", "optimise"]
         op = rng.choice(ops)
@@ -2826,6 +2918,18 @@ def gen_lf(res, rng, model, depth, variant):
                 fn = lambda: lf.set_param_rule(p, init=v, lower=lo, upper=hi)  # noqa: E731
             elif op == "param-independent":
                 fn = lambda: lf.set_param_rule(p, is_independent=True)  # noqa: E731
+            elif op == "param-constant-and-bounded":
+                # the same parameter constant on some edges, free with non-default bounds on the others
+                es = rng.sample(edges, rng.randint(1, max(1, len(edges) - 1)))
+                rest = [e for e in edges if e not in es]
+                lo, hi = round(v / 4, 4), round(v * 5, 4)
+                d.update(constant_edges=es, value=v, bounded_edges=rest, lower=lo, upper=hi)
+
+                def fn(es=es, rest=rest, lo=lo, hi=hi):
+                    lf.set_param_rule(p, edges=es, is_constant=True, value=v)
+                    if rest:
+                        lf.set_param_rule(p, edges=rest, init=round((lo + hi) / 2, 4), lower=lo, upper=hi)
+
             elif op == "param-edges":
                 es = rng.sample(edges, rng.randint(1, max(1, len(edges) - 1)))
                 d.update(edges=es, init=v)
@@ -3003,7 +3107,7 @@ def gen_result(res, rng, rtype):
             elif which == "tree":
                 v = make_tree(rand_tree_newick(rng, 4, "all")).rooted_with_tip("t0") if rng.random() < 0 else make_tree("((a:1,b:2)ab:0.5,c:3,d:4)root;").rooted_at("ab")
             else:
-                v = DistanceMatrix({("a", "b"): 1.0, ("a", "c"): 2.0, ("b", "c"): 0.5}).take_dists(["a", "c"])
+                v = DistanceMatrix({("a", "b"): 1.0, ("b", "a"): 1.25, ("a", "c"): 2.0, ("c", "a"): 0.5, ("b", "c"): 0.5}).take_dists(["a", "c"])
 
             def _set(key=key, v=v):
                 r[key] = v
@@ -3026,6 +3130,7 @@ def gen_result(res, rng, rtype):
                 v = DictArrayTemplate(["a", "b"], ["x", "y", "z"]).wrap(np.arange(6).reshape(2, 3) / rng.randint(1, 5))[["b"]]
             else:
                 v = DistanceMatrix({("a", "b"): 1.0, ("a", "c"): float("nan"), ("b", "c"): 0.5})
+                v["c", "b"] = 0.875
 
             def _set(k=k, v=v):
                 r[f"k{k}"] = v
